@@ -38,7 +38,7 @@ def canon_case(lines):
                 if inb != "-":
                     segs = []
                     for seg in inb.split(";"):
-                        m = re.match(r'^(\d+):\[(.*)\]$', seg)
+                        m = re.match(r'^([^:\[\]]+):\[(.*)\]$', seg)
                         if m:
                             msgs = [_sort_msg(x) for x in m.group(2).split("|")]
                             segs.append("%s:[%s]" % (m.group(1), "|".join(msgs)))
